@@ -330,6 +330,16 @@ def gen_case(run_seed: int, tier: str, index: int | None = None) -> dict[str, An
             tree[n]["pre"] = "crlf"
     if w.random() < 0.4:
         tree["keep.txt"] = {"f": b2j(b"not markdown\n")}
+    lk = sub_rng(run_seed, "links")
+    if lk.random() < 0.2:
+        # a symlink to one of the documents: in the root, or in a sub-directory with a target
+        # relative to that directory
+        tgt = lk.choice(names)
+        where = lk.choice(["", "docs", "docs/sub"])
+        lname = (where + "/" if where else "") + lk.choice(["link.md", "alias.md"])
+        if lname not in tree:
+            tree[lname] = {"l": os.path.relpath(tgt, where or ".")}
+            names = names + [lname]
     k = sub_rng(run_seed, "knobs")
     invs = []
     for j in range(w.choice([1, 2, 3, 3, 4, 6])):
@@ -413,7 +423,8 @@ def partial_match(model: Model, pred: Pred, stdin: bytes, exit_class: str, stdou
         if f == "-" or f not in M0:
             continue
         try:
-            alone[f] = model.fmt_file(M0[f], pt["o"])
+            data0 = content(M0, f)
+            alone[f] = None if data0 is None else model.fmt_file(data0, pt["o"])
         except Exception:  # noqa: BLE001
             alone[f] = None
     if pt["mode"] == "stdout":
@@ -473,6 +484,27 @@ def glob_model(M: dict[str, bytes], pat: str) -> list[str]:
     raise ValueError(pat)
 
 
+def is_link(v: Any) -> bool:
+    return isinstance(v, (tuple, list)) and len(v) == 2 and v[0] == "L"
+
+
+def deref(M: dict[str, Any], path: str) -> str | None:
+    """Follow symlink entries of the model (targets relative to the link's directory)."""
+    for _ in range(8):
+        v = M.get(path)
+        if v is None:
+            return None
+        if not is_link(v):
+            return path
+        path = os.path.normpath(os.path.join(os.path.dirname(path), v[1]))
+    return None
+
+
+def content(M: dict[str, Any], path: str) -> bytes | None:
+    t = deref(M, path)
+    return None if t is None else M[t]
+
+
 def path_key(p: str) -> tuple[str, ...]:
     return tuple(p.split("/"))  # pathlib orders by parts
 
@@ -509,10 +541,11 @@ def predict(model: Model, inv: dict[str, Any], M: dict[str, bytes]) -> Pred:
                     out.extend(res_s.encode("utf-8", "surrogateescape"))
                     p.formatted.append((stdin, o))
                     continue
-                if f not in p.M:
+                data = content(p.M, f)
+                if data is None:
                     raise FileNotFoundError(f)
-                res = model.fmt_file(p.M[f], o)
-                p.formatted.append((p.M[f], o))
+                res = model.fmt_file(data, o)
+                p.formatted.append((data, o))
             except Exception:  # noqa: BLE001
                 p.exit = "nonzero"
                 if len(files) > 1:
@@ -542,11 +575,18 @@ def predict(model: Model, inv: dict[str, Any], M: dict[str, bytes]) -> Pred:
         found: set[str] = set()
         for a in nonstd:
             if a in M:
-                found.add(a)
+                t = deref(M, a)  # an explicitly named symlink is resolved: its target is processed
+                if t is None:
+                    return None
+                found.add(t)
             elif any(c in a for c in "*?["):
-                found.update(glob_model(M, a))
+                for g in glob_model(M, a):
+                    t = deref(M, g)  # glob results are resolved as well
+                    if t is not None:
+                        found.add(t)
             elif is_dir(a):
-                found.update(md_files_under(M, a, (".txt",) if inv.get("extend_include") else ()))
+                # traversal does not follow symlinks
+                found.update(f for f in md_files_under(M, a, (".txt",) if inv.get("extend_include") else ()) if not is_link(M[f]))
             else:
                 return None
         if inv.get("max_size"):
@@ -607,8 +647,11 @@ def predict(model: Model, inv: dict[str, Any], M: dict[str, bytes]) -> Pred:
                     res_b = model.fmt_stdin(stdin, o).encode("utf-8")
                     p.formatted.append((stdin, o))
                 else:
-                    res_b = model.fmt_file(p.M[api["path"]], o)
-                    p.formatted.append((p.M[api["path"]], o))
+                    data_in = content(p.M, api["path"])
+                    if data_in is None:
+                        raise FileNotFoundError(api["path"])
+                    res_b = model.fmt_file(data_in, o)
+                    p.formatted.append((data_in, o))
                 p.M[api["output"]] = res_b
             except Exception:  # noqa: BLE001
                 p.exit = "nonzero"
@@ -633,7 +676,7 @@ def predict(model: Model, inv: dict[str, Any], M: dict[str, bytes]) -> Pred:
         alt = Pred()
         alt.M = dict(M)
         try:
-            alt.M[inv["output"]] = model.fmt_file(M[inv["files"][0]], eff_opts(inv, False))
+            alt.M[inv["output"]] = model.fmt_file(content(M, inv["files"][0]) or b"", eff_opts(inv, False))
             alt.exit = "0"
             p.alt = alt
         except Exception:  # noqa: BLE001
@@ -701,9 +744,19 @@ def make_fn(inv: dict[str, Any]) -> Any:
     return fn2
 
 
-def tree_files(root: str) -> dict[str, bytes]:
+def tree_files(root: str) -> dict[str, Any]:
     snap = simproc.snapshot(root)
-    return {rel: ent[1] for rel, ent in snap.items() if ent[0] == "f"}
+    out: dict[str, Any] = {}
+    for rel, ent in snap.items():
+        if ent[0] == "f":
+            out[rel] = ent[1]
+        elif ent[0] == "l":
+            out[rel] = ("L", ent[1])
+    return out
+
+
+def tree_spec(M: dict[str, Any]) -> dict[str, Any]:
+    return {rel: ({"l": v[1]} if is_link(v) else {"f": v}) for rel, v in M.items()}
 
 
 def tree_dirs(root: str) -> set[str]:
@@ -775,20 +828,20 @@ def run_case(env: Env, case: dict[str, Any], want_trace: bool = False) -> dict[s
 def _run_case(case: dict[str, Any], scratch: str, want_trace: bool) -> dict[str, Any]:
     root = os.path.join(scratch, "t")
     os.makedirs(root)
-    M: dict[str, bytes] = {rel: (j2b(ent["f"]) or b"") for rel, ent in case["tree"].items()}
+    M: dict[str, Any] = {rel: (("L", ent["l"]) if "l" in ent else (j2b(ent["f"]) or b"")) for rel, ent in case["tree"].items()}
     model = Model()
     if case["history"]:
         inv0 = case["history"][0]
         o0 = eff_opts(inv0, "--auto" in (inv0.get("argv") or []))
         for rel, ent in case["tree"].items():
-            if ent.get("pre"):
+            if ent.get("pre") and not is_link(M[rel]):
                 try:
                     fixed = model.fmt_file(M[rel], o0)
                     fixed = model.fmt_file(fixed, o0)  # (formatting is not always idempotent; two passes get closer)
                 except Exception:  # noqa: BLE001
                     continue
                 M[rel] = fixed.replace(b"\n", b"\r\n") if ent["pre"] == "crlf" else fixed
-    simproc.build_tree(root, {rel: {"f": b} for rel, b in M.items()})
+    simproc.build_tree(root, tree_spec(M))
     M0 = dict(M)
     violations: list[dict[str, Any]] = []
     counters: dict[str, Any] = {"histories": 1, "invocations": 0, "forms": {}, "legal_fires": {}, "usage_errors_checked": 0, "twin_runs": 0, "discriminating_invocations": 0, "listing_permuted": 0, "fs_ops": 0}
@@ -841,7 +894,11 @@ def _run_case(case: dict[str, Any], scratch: str, want_trace: bool) -> dict[str,
             for path in set(got) | set(want):
                 if got.get(path) == want.get(path):
                     continue
+                if is_link(before.get(path)) and got.get(path) == before.get(path) and isinstance(want.get(path), bytes) and content(got, path) == want[path]:
+                    continue  # a no-op pass over a symlink argument may leave the link in place (same bytes through it)
                 base = path[: -len(".orig")] if path.endswith(".orig") else None
+                if base is not None and is_link(before.get(base)) and got.get(base) == before.get(base) and got.get(path) == before.get(path) and content(got, base) == (want.get(base) if isinstance(want.get(base), bytes) else None):
+                    continue  # ... and then there is no backup of it either
                 if base is not None and base in before and got.get(base) == want.get(base):
                     # the file itself is right; its backup may legitimately be: skipped when a
                     # pass changes nothing (previous .orig state kept), or the content the file
@@ -907,7 +964,7 @@ def _run_case(case: dict[str, Any], scratch: str, want_trace: bool) -> dict[str,
             if os.path.isdir(root2):
                 shutil.rmtree(root2)
             os.makedirs(root2)
-            simproc.build_tree(root2, {rel: {"f": b} for rel, b in M.items()})
+            simproc.build_tree(root2, tree_spec(M))
             ip2 = simproc.Interposer(root2, [], inv.get("knobs") or {})
             inv2 = dict(inv, argv=spelled_out(inv["argv"]))
             res2 = simproc.run_process(ip2, make_fn(inv2), stdin, cwd=root2, uid_seed=inv.get("uid_seed", 0))
@@ -961,7 +1018,7 @@ def _real_cli_history(case: dict[str, Any], scratch: str, inproc: list[tuple[Any
 
     real = os.path.join(scratch, "real")
     os.makedirs(real)
-    simproc.build_tree(real, {rel: {"f": b} for rel, b in M0.items()})
+    simproc.build_tree(real, tree_spec(M0))
     env = dict(os.environ, PYTHONPATH=repo_src(), PYTHONUTF8="1", PYTHONDONTWRITEBYTECODE="1")
     rng = random.Random(case["run_seed"])
     for idx, inv in enumerate(case["history"]):
@@ -991,7 +1048,7 @@ def _real_cli_history(case: dict[str, Any], scratch: str, inproc: list[tuple[Any
 def sample_of(case: dict[str, Any], res: dict[str, Any]) -> dict[str, Any]:
     return {
         "run_seed": case["run_seed"],
-        "tree": {rel: len(j2b(ent["f"]) or b"") for rel, ent in case["tree"].items()},
+        "tree": {rel: (ent if "l" in ent else len(j2b(ent["f"]) or b"")) for rel, ent in case["tree"].items()},
         "history": [{"form": inv["form"], "argv": inv.get("argv"), "api": inv.get("api"), "knobs": inv.get("knobs")} for inv in case["history"]],
         "digest": res["digest"],
     }
@@ -1059,7 +1116,7 @@ def minimise(env: Env, case: dict[str, Any], fp: str, budget_evals: int = 300) -
         best = dict(best, tree={r: e for r, e in best["tree"].items() if r in kept_d or r not in droppable})
     # shrink documents and stdin
     for rel, ent in list(best["tree"].items()):
-        if "t" not in ent["f"]:
+        if "f" not in ent or "t" not in ent["f"]:
             continue
 
         def test(txt: str, rel: str = rel) -> bool:
